@@ -875,6 +875,33 @@ struct RouterCase {
     /// batches of key pool indices; a small modulus makes keys repeat inside a batch
     batches: Vec<Vec<u16>>,
     key_space: u16,
+    /// a write burst inside one gossip interval: one more batch of `size` deltas whose key
+    /// indices come from a small generator seeded with `seed` (the case stays small and shrinks
+    /// as two numbers). Sizes sit on and around the thresholds a batching layer might have
+    /// (powers of two, 500/1000/1500) so that "more than N deltas owed to one target" is met.
+    #[serde(default)]
+    burst: Option<(u16, u16)>,
+}
+
+fn burst_strategy() -> impl Strategy<Value = Option<(u16, u16)>> {
+    prop_oneof![
+        6 => Just(None),
+        1 => (prop_oneof![
+            Just(64u16), Just(65), Just(127), Just(128), Just(129), Just(255), Just(256), Just(257),
+            Just(500), Just(511), Just(512), Just(513), Just(600), Just(1000), Just(1023), Just(1024),
+            Just(1025), Just(1500), Just(2047), Just(2049), Just(4097), 41u16..5000
+        ], any::<u16>()).prop_map(Some),
+    ]
+}
+
+fn burst_batch(size: u16, seed: u16) -> Vec<u16> {
+    let mut x = (seed as u32).wrapping_mul(2654435761u32) | 1;
+    (0..size)
+        .map(|_| {
+            x = x.wrapping_mul(1664525).wrapping_add(1013904223);
+            (x >> 16) as u16
+        })
+        .collect()
 }
 
 fn batches_strategy() -> impl Strategy<Value = Vec<Vec<u16>>> {
@@ -889,14 +916,16 @@ fn router_case() -> impl Strategy<Value = RouterCase> {
         any::<bool>(),
         batches_strategy(),
         prop_oneof![1 => Just(4u16), 1 => Just(24u16), 3 => Just(u16::MAX)],
+        burst_strategy(),
     )
-        .prop_map(|(ids, vnodes, rf, self_in_peers, batches, key_space)| RouterCase {
+        .prop_map(|(ids, vnodes, rf, self_in_peers, batches, key_space, burst)| RouterCase {
             ids,
             vnodes,
             rf,
             self_in_peers,
             batches,
             key_space,
+            burst,
         })
 }
 
@@ -1040,7 +1069,13 @@ fn check_router_case(c: &RouterCase, ctx: &mut CaseCtx<'_>) -> Result<(), String
         return Ok(());
     }
     let ring = Arc::new(RwLock::new(HashRing::new(rid(&ids), c.vnodes, c.rf)));
-    let batches = batch_keys(&c.batches, c.key_space);
+    let mut raw = c.batches.clone();
+    if let Some((size, seed)) = c.burst {
+        raw.push(burst_batch(size, seed));
+        ctx.label("burst_batch");
+        ctx.label(if size > 512 { "burst_batch:>512" } else { "burst_batch:<=512" });
+    }
+    let batches = batch_keys(&raw, c.key_space);
     let mut evals = 0;
     for &sender in &ids {
         let peers: HashMap<ReplicaId, String> = ids
@@ -1075,7 +1110,7 @@ fn check_router_case(c: &RouterCase, ctx: &mut CaseCtx<'_>) -> Result<(), String
     });
     let total: usize = batches.iter().map(|b| b.len()).sum();
     if n >= 3 && c.rf > 0 && c.rf < n && total > 0 {
-        ctx.nontrivial(&(ids, c.vnodes, c.rf, c.batches.clone(), c.key_space));
+        ctx.nontrivial(&(ids, c.vnodes, c.rf, c.batches.clone(), c.key_space, c.burst));
     }
     Ok(())
 }
